@@ -48,6 +48,11 @@ structure Env where
   regex : String → String → Option Bool
   /-- `strFormat name s`: `none` when no validator is registered under that name -/
   strFormat : String → String → Option Bool
+  /-- `VisitAsRequest()` / `VisitAsResponse()` and the options that switch the read-only / write-only checks off -/
+  asreq : Bool := false
+  asrep : Bool := false
+  roOff : Bool := false
+  woOff : Bool := false
 
 def Kw.includes (kw : Kw) (t : String) : Bool :=
   match kw.types with | none => false | some ts => ts.contains t
